@@ -310,7 +310,7 @@ for q in req.get('extra_structs', []):
     try:
         gdb.lookup_type(q); want_layout(q)
     except gdb.error as e:
-        out['errors'].append('no type %s (requested by the job)' % q)
+        out.setdefault('warnings', []).append('no type %s in this translation unit (requested by the job)' % q)
 
 # --- scalar requests: [uid, name]
 for uid, name in req.get('scalars', []):
